@@ -38,6 +38,7 @@ class World:
             o.attrs['name'] = name or self.text(key, width)
             o.attrs['elements'] = DictV({self.elements[e]: D.sym('%s_n%d' % (key, e)) for e in els})
             o.attrs['n_sites'] = D.sym('%s_sites' % key)
+            I.int_syms.add('%s_sites' % key)        # a site occupancy is a whole number of sites
             I.num_widths[repr(o.attrs['n_sites'])] = 1
             self.species[key] = o
             return o
